@@ -2,6 +2,7 @@ import Proofs.C05TypeStr
 import Proofs.C05Frame
 import Proofs.C05Rows
 import Proofs.C05DispatchFixed
+import Proofs.C05ValueFixed
 import Model.TypeStrFixed
 import Model.FrameCrashFixed
 import Model.RowsCrashFixed
@@ -48,6 +49,13 @@ theorem C05_rows_total (proto flags : Nat) (body : FrameCrash.Bytes) (o : RowsCr
       have := (C05Rows.scanAll_known true m hm n st.buf s hc).2
       cases this
     · cases ho
+
+/-- every (proto, type tree, destination, bytes): Unmarshal returns (fix-6, 10-15); the fixes are
+conservative (`C05Value.C05_fixed_conservative`: ok stays ok, err stays err) and bound the
+element allocation by the bytes left (`C05Value.C05_alloc_bound_fixed`) -/
+theorem C05_values_total (proto : Nat) (t : CrashValue.CT) (dst : CrashValue.Dest) (data : Option CrashValue.Bytes) :
+    ∀ s, CrashValueFixed.unmarshal proto t dst data ≠ .crash s :=
+  C05Value.C05_values_total_fixed proto t dst data
 
 /-- dispatch: the full theorems are `C05DispatchFixed.C05_dispatch_total`, `C05_stream_total`,
 `C05_handshake_total` (Proofs/C05DispatchFixed.lean). -/
